@@ -23,6 +23,9 @@ extra_fields = {
     "hugr.build.dfg.DfBase._tw_wires": "Seq[Seq[Union[Node, OutPort]]]",
     # ghost: the output row a container operation was last given through _set_out_types
     "hugr.ops.DfParentOp._g_out_row": "Opt[Seq[Type]]",
+    # ghost: changes whenever an operation may have been (re-)typed - _wire_up types partial operations - so that
+    # "the count the operation reports" is the one it reports *after* the wiring
+    "hugr.ops.DataflowOp._g_epoch": "int",
 }
 
 
@@ -120,7 +123,7 @@ class wire_up_recorder:
     returns = "Seq[Type]"
 
     def modifies(self, node, ports):
-        return [self._tw_node, self._tw_wires, self.hugr._nodes, self.hugr._links.fwd, self.hugr._links.bck, "hugr.ops.Output._types"]
+        return [self._tw_node, self._tw_wires, self.hugr._nodes, self.hugr._links.fwd, self.hugr._links.bck, "hugr.ops.Output._types", "hugr.ops.DataflowOp._g_epoch"]
 
     def raises(self, node, ports):
         return {}
@@ -208,7 +211,7 @@ class set_outputs:
         return len(self._tw_node) == len(self._tw_wires)
 
     def modifies(self, args):
-        return [self._tw_node, self._tw_wires, self.hugr._nodes, self.hugr._links.fwd, self.hugr._links.bck, "hugr.ops.Output._types", "hugr.ops.DfParentOp._g_out_row"]
+        return [self._tw_node, self._tw_wires, self.hugr._nodes, self.hugr._links.fwd, self.hugr._links.bck, "hugr.ops.Output._types", "hugr.ops.DfParentOp._g_out_row", "hugr.ops.DataflowOp._g_epoch"]
 
     def raises(self, args):
         return {}
@@ -220,3 +223,54 @@ class set_outputs:
         return {"P_the_wires_go_to_the_output_node_in_order": n == len(old(self._tw_node)) + 1 and len(self._tw_wires) == n
                 and eq(nth(self._tw_node, n - 1), self.output_node) and eq(nth(self._tw_wires, n - 1), args),
                 "P_container_row_is_the_output_nodes_row": notNone(po._g_out_row) and eq(the(po._g_out_row), ghost("row_of_output", "Seq[Type]", oo, oo._types))}
+
+
+# ---- DfBase.add_op: one node, wired to the given wires, and a handle that knows the operation's output count ----
+@spec
+def outs_of(op):
+    """ghost: the number of outputs an operation reports (DataflowOp.num_out; its value per class is C06)"""
+    return ghost("num_out_of", "int", op, op._g_epoch)
+
+
+@contract("hugr.ops.DataflowOp.num_out", props=[])
+class dataflow_num_out:
+    interface = True
+    ghost_def = True
+    returns = "int"
+
+    def modifies(self):
+        return []
+
+    def raises(self):
+        return {}
+
+    def ensures(self, result):
+        return {"A_named": result == outs_of(self)}
+
+
+@contract("hugr.build.dfg.DfBase.add_op", props=["C01", "C16"])
+class add_op:
+    types = {"op": "hugr.ops.DataflowOp", "args": "Seq[Union[Node, OutPort]]", "metadata": "Opt[Dict[str, Any]]"}
+    exact_self = False
+    returns = "Node"
+
+    def requires(self, op, args, metadata):
+        return aligned(self.hugr) and len(self._tw_node) == len(self._tw_wires)
+
+    def modifies(self, op, args, metadata):
+        return [self.hugr._tn_op, self.hugr._tn_parent, self.hugr._tn_outs, self.hugr._tn_node, self.hugr._nodes, self.hugr._free_nodes,
+                self._tw_node, self._tw_wires, self.hugr._links.fwd, self.hugr._links.bck, "hugr.ops.Output._types", "hugr.ops.DataflowOp._g_epoch"]
+
+    def raises(self, op, args, metadata):
+        return {}
+
+    def ensures(self, op, args, metadata, result):
+        h = self.hugr
+        n = len(h._tn_op)
+        w = len(self._tw_node)
+        return {"P_one_node_with_that_operation_under_the_container": n == len(old(self.hugr._tn_op)) + 1 and aligned(h) and same_obj(nth(h._tn_op, n - 1), op)
+                and notNone(nth(h._tn_parent, n - 1)) and the(nth(h._tn_parent, n - 1)).idx == self.parent_node.idx,
+                "P_wired_to_the_given_wires_in_order": w == len(old(self._tw_node)) + 1 and len(self._tw_wires) == w
+                and nth(self._tw_node, w - 1).idx == nth(h._tn_node, n - 1).idx and eq(nth(self._tw_wires, w - 1), args),
+                "P_handle_is_the_new_node": result.idx == nth(h._tn_node, n - 1).idx,
+                "P_handle_knows_the_output_count": notNone(result._num_out_ports) and the(result._num_out_ports) == outs_of(op)}
